@@ -546,4 +546,4 @@ def run(ctx):
 # full-size tasks live in C07_full but are dispatched through this module's namespace
 from . import C07_tiny_twist  # noqa: E402
 from .C07_tiny_twist import task_tiny_twist  # noqa: E402,F401
-from .C07_full import task_full_pairs, task_full_mul, task_full_consts, task_full_twist, task_full_bfs  # noqa: E402,F401
+from .C07_full import task_full_pairs, task_full_mul, task_full_consts, task_full_twist, task_full_bfs, task_containers  # noqa: E402,F401
